@@ -39,3 +39,28 @@ From KV Require Import StateGen StateBase StateExportProofs StateTokensProofs.
 Theorem C13_state_as_modelled : state_export = modelled_state_export /\ state_tokens = modelled_state_tokens.
 Proof. exact (conj state_export_as_modelled state_tokens_as_modelled). Qed.
 Print Assumptions C13_state_as_modelled.
+
+(* DOCUMENT level, single-spine **kern documents of any length: under ANY option set without a measure range whose
+   encoding is one of kern / ekern / bkern / bekern and whose spine selection keeps the spine, the export is the header
+   cell followed, line by line, by a function of that line's TOKEN and of (categories, encoding) only - the options act
+   cell by cell and independently of the document around the cell; lines whose cell is null are dropped *)
+From KV Require Import EncGen Token Tokenizers Importer Exporter SingleSpineProofs.
+Theorem C13_single_spine_document_under_options : forall o d toks outs h, sp1 toks d ->
+  spine_selected o (Some ("**kern"%string, 0)) = true -> clef_free (o_enc o) -> o_from o = None -> o_to o = None ->
+  header_cell o = Ok h ->
+  Forall2 (fun t x => match t with THeader _ _ => False | _ => True end /\ cell_of_tok o t = Ok x) toks outs ->
+  export_rows d o = Ok (kept_rows (h :: outs)).
+Proof. exact export_one_spine_opts. Qed.
+Print Assumptions C13_single_spine_document_under_options.
+
+Theorem C13_plain_and_basic_encodings_ignore_the_clef :
+  clef_free E_normalizedKern /\ clef_free E_eKern /\ clef_free E_bKern /\ clef_free E_bEkern.
+Proof. exact (conj clef_free_kern (conj clef_free_ekern (conj clef_free_bkern clef_free_bekern))). Qed.
+Print Assumptions C13_plain_and_basic_encodings_ignore_the_clef.
+
+(* and such documents exist for every list of importable cells (the invariant sp1 is what the importer builds) *)
+Theorem C13_single_spine_documents_are_built : forall bad cells toks,
+  Forall2 (fun c t => plain_cell c /\ import_cell bad "**kern" c = RTok t) cells toks ->
+  exists s, run_rows bad init_state (one_spine cells) = IOk s /\ sp1 (toks ++ [term_tok]) (i_doc s).
+Proof. exact import_one_spine. Qed.
+Print Assumptions C13_single_spine_documents_are_built.
